@@ -327,6 +327,27 @@ def run(ctx):
                 ctx.case((tuple(routes), path, stale, root, rnd) if nt and len(routes) >= 1 else None)
         if i < 3:
             ctx.sample("table+path", {"routes": routes, "path": path, "model": repr(M.first_match(routes, path))})
+    # ---- one router that lives long: hundreds of distinct paths per route, then the early paths again (answers must not depend on history)
+    for rep in range(ctx.scale(2, 40)):
+        routes = ["/u/{name}", "/n/{id:int}", "/f/{p:any}", "/d/{day:date}/{slot:int}", "/{a}/{b}"]
+        table = make(ctx, routes)
+        if table is None:
+            break
+        first = {}
+        paths = [f"/u/user{i}" for i in range(150)] + [f"/n/{i}" for i in range(300)] + [f"/f/x/{i}/y" for i in range(150)] + \
+                [f"/d/2021-03-{1 + i % 28:02d}/{i}" for i in range(60)] + [f"/p{i}/q{i}" for i in range(200)] + [f"/nope{i}" for i in range(140)]
+        rng.shuffle(paths)
+        for path in paths + paths[:200]:
+            table.rec.hit = None
+            seen, hit, status, exc = dispatch_wsgi(table, path) if rep % 2 == 0 else dispatch_asgi(table, path)
+            obs = (hit[0] if hit else None, repr(hit[1]) if hit else None, status, type(exc).__name__ if exc else None)
+            ctx.mon("long-lived-router")
+            if path in first and first[path] != obs:
+                ctx.violation("answer-depends-on-router-history", {"routes": routes, "path": path, "requests_before": len(first)}, f"first {first[path]}, later {obs}")
+                break
+            first.setdefault(path, obs)
+            judge(ctx, "wsgi" if rep % 2 == 0 else "asgi", routes, seen, hit, status, exc, {"routes": routes, "path": path, "long_lived_router": True})
+        ctx.case(("long-lived", rep, ctx.shard))
     # convertor round trip on generated values of each language
     from baize.routing import CONVERTOR_TYPES
     for t, vals in M.CONV.items():
